@@ -19,6 +19,7 @@ RULE = (
     "interpreted against the real store (time.time in the session module replaced by a controlled integer clock) and a dict model, compared after every step; "
     "Hypothesis sequences up to 60 (quick) / 200 (thorough) steps, a Hypothesis RuleBasedStateMachine whose rules draw live sessions from a bundle (50 / 120 steps per run), plus all sequences of length<=4 (quick) / <=5 (thorough) over a 17-operation alphabet on a 3-session universe; "
     "non-trivial = sequence contains a cleanup at an exact boundary, or update/delete/get after delete/expiry, or a list mutation; distinct = distinct sequence"
+    "; added in rounds 6-7 of the seeded changes: partial / null-bearing client-info records; dispatch cancelled mid-handler followed by expiry"
 )
 ASSUMPTIONS = [
     "the clock is read through the module attribute `time` of chuk_mcp.server.session.memory (replaced by a fake with integer seconds)",
